@@ -66,6 +66,26 @@ Theorem c05_impostor_blocks_until_lost : forall s x a i n,
 Proof. exact impostor_blocks_until_lost. Qed.
 Print Assumptions c05_impostor_blocks_until_lost.
 
+(* re-dial: when the link a dialer obtained is reported lost, the controller
+   restarts that dialer (hasNextLink = false on the loss path), whether or not
+   the peer still has other links; the restarted loop reaches x again, never
+   another peer *)
+Theorem c05_lost_dialer_link_restarts : forall kp, restarts kp kp true false = true.
+Proof. exact lost_dialer_link_restarts. Qed.
+Print Assumptions c05_lost_dialer_link_restarts.
+
+Theorem c05_redial_independent_of_other_links : forall o1 o2 s x a ra e,
+  redial_after_loss o1 s x a ra e = redial_after_loss o2 s x a ra e.
+Proof. exact redial_independent_of_other_links. Qed.
+Print Assumptions c05_redial_independent_of_other_links.
+
+Theorem c05_redial_reaches_x : forall others s x a ra mid e',
+  x <> 0 -> alias_clean s a ra ->
+  exists d s', redial_after_loss others s x a ra (mid ++ Drop :: Attempt (Peer x) :: e') = (Some d, s')
+               /\ ((d = DLink x /\ aget ra s' = Some x) \/ (d = DNoLink /\ aget a s' = Some x)).
+Proof. exact redial_reaches_x. Qed.
+Print Assumptions c05_redial_reaches_x.
+
 (* overlapping dials: the per-address dialer is shared by every DialPeer(_, a)
    in flight, whoever created it; for every interleaving of calls (any requested
    peers), completions and losses, a call that reports a link got a link to the
